@@ -191,10 +191,10 @@ fn judge_prop(n: usize, confs: &[(Kind, f64)], s: &mut Sink) {
     }
 }
 
-/// thorough only: every integer dof of a range x a dense one-sided level grid (step 0.0005
+/// dense sweep (both tiers): every integer dof of a range x a dense one-sided level grid (step 0.0005
 /// above 1/2): the upstream quantile routine fails at isolated (dof, quantile) points (a
 /// few per million), which only a sweep of this density can meet
-fn judge_dense(lo: usize, hi: usize, s: &mut Sink) {
+fn judge_dense(lo: usize, hi: usize, jmin: usize, s: &mut Sink) {
     let mut st = Arithmetic::<f64>::new();
     for n in 1..=hi {
         StatisticsOps::append(&mut st, if n % 2 == 1 { 1.0 } else { -1.0 }).unwrap();
@@ -204,7 +204,7 @@ fn judge_dense(lo: usize, hi: usize, s: &mut Sink) {
         let ex = exact_stats_runs(&[(1.0, ((n + 1) / 2) as u64), (-1.0, (n / 2) as u64)]);
         let (center, se, dof) = (ex.mean_f(), ex.se_f(), n as f64 - 1.0);
         let floor = vcheck::meanchk::tol_floor(dof);
-        for j in 1..=999usize {
+        for j in jmin..=999usize {
             let q = 0.5 + 0.0005 * j as f64;
             s.evals += 1;
             s.calls += 1;
@@ -229,7 +229,7 @@ fn judge_dense(lo: usize, hi: usize, s: &mut Sink) {
 }
 
 enum Job {
-    Dense(usize, usize),
+    Dense(usize, usize, usize),
     Stream(Vec<usize>),
     Unp(usize, usize, f64, f64),
     Prop(usize),
@@ -243,10 +243,12 @@ fn run(tier: Tier) -> Sink {
     for chunk in pts.chunks(tier.pick(500, 2000)) {
         jobs.push(Job::Stream(chunk.to_vec()));
     }
-    if tier == Tier::Thorough {
-        let mut a = 2usize;
+    // quick: dof >= 15 000 (where the upstream failures live) x levels 0.70..0.9995;
+    // thorough: every dof x 0.5005..0.9995
+    {
+        let (mut a, jmin) = tier.pick((15_000usize, 400usize), (2, 1));
         while a <= 101_000 {
-            jobs.push(Job::Dense(a, (a + 499).min(101_000)));
+            jobs.push(Job::Dense(a, (a + 499).min(101_000), jmin));
             a += 500;
         }
     }
@@ -265,11 +267,11 @@ fn run(tier: Tier) -> Sink {
         jobs.push(Job::Prop(n));
     }
     jobs.sort_by_key(|j| match j {
-        Job::Dense(_, hi) => std::cmp::Reverse(*hi),
+        Job::Dense(_, hi, _) => std::cmp::Reverse(*hi),
         _ => std::cmp::Reverse(0),
     });
     par_judge(&jobs, |j, s| match j {
-        Job::Dense(lo, hi) => judge_dense(*lo, *hi, s),
+        Job::Dense(lo, hi, jmin) => judge_dense(*lo, *hi, *jmin, s),
         Job::Stream(p) => judge_stream(p, &confs, s),
         Job::Unp(na, nb, sa, sb) => judge_unpaired(*na, *nb, *sa, *sb, &confs, s),
         Job::Prop(n) => judge_prop(*n, &confs, s),
@@ -283,7 +285,7 @@ fn replay_case(case: &Value, s: &mut Sink) {
     match case["check"].as_str().unwrap_or("") {
         "dense" => {
             let n = case["n"].as_u64().unwrap() as usize;
-            judge_dense(n, n, s)
+            judge_dense(n, n, 1, s)
         }
         "stream" => judge_stream(&[case["n"].as_u64().unwrap() as usize], &confs, s),
         "unpaired" => judge_unpaired(case["na"].as_u64().unwrap() as usize, case["nb"].as_u64().unwrap() as usize, case["sa"].as_f64().unwrap(), case["sb"].as_f64().unwrap(), &confs, s),
@@ -307,7 +309,7 @@ fn main() {
     s.sample(json!({"check":"stream","n":100001,"dof":100000,"kind":"Two","level":0.95,"oracle":"normal CDF (t accepted within 1% of the switch)"}));
     s.sample(json!({"check":"unpaired","na":3,"nb":7,"sa":1.0,"sb":0.25,"oracle":"exact effective dof (real-valued) from rational variances; t CDF at that dof"}));
     s.sample(json!({"check":"proportion","n":30,"k":7,"kind":"Upper","level":0.9,"oracle":"z = sqrt(n)(k/n-p)/sqrt(p(1-p)) at the returned root; Phi(z) = 0.9"}));
-    rep.rule = format!("integer dof: +1,-1,... stream queried at {} sample sizes ({}) x {} confidences; real dof: unpaired two-point constructions (na,nb) in 2..12 squared x 7 sd ratios + 8 large/unbalanced constructions; proportion: every admissible (n,k), n<={}; thorough only: every dof 1..100999 x 999 one-sided levels 0.5005..0.9995 (dense sweep for isolated failures of the upstream quantile routine); distinct by (kind, level, 1-2-5 dof bucket)", query_points(tier).len(), tier.pick("every n<=3000, every n in 99000..101000, 2% geometric steps between, 131072, 200001, 1000001", "every n in 2..101000, 131072, 200001, 1000001"), vcheck::confs(tier).len(), tier.pick(120, 400));
+    rep.rule = format!("integer dof: +1,-1,... stream queried at {} sample sizes ({}) x {} confidences; real dof: unpaired two-point constructions (na,nb) in 2..12 squared x 7 sd ratios + 8 large/unbalanced constructions; proportion: every admissible (n,k), n<={}; dense sweep: quick dof 15000..100999 x 600 one-sided levels 0.70..0.9995, thorough every dof 1..100999 x 999 levels 0.5005..0.9995 (dense sweep for isolated failures of the upstream quantile routine); distinct by (kind, level, 1-2-5 dof bucket)", query_points(tier).len(), tier.pick("every n<=3000, every n in 99000..101000, 2% geometric steps between, 131072, 200001, 1000001", "every n in 2..101000, 131072, 200001, 1000001"), vcheck::confs(tier).len(), tier.pick(120, 400));
     rep.assume("the tolerance floor per dof tier is bounded below by the accuracy of the upstream (statrs) quantile routine; observed maxima per 1-2-5 dof bucket are in coverage.maxima");
     rep.require(s.counter("real-valued-dof-cases") > 100, "fewer than 100 real-valued dof cases");
     rep.require(s.distinct() >= 100, "fewer than 100 distinct classes: vacuous");
